@@ -11,8 +11,9 @@
   Structure: parent-less cores (`intersection`, `singleMinus`, …) and parent-aware entry points (`…P`).
   The parent gate sits at the head of `SingleInterval.has_overlap`; every nested call of the Python code
   evaluates it on the same two parents (blocks and spans inherit the parent of their location, and the gate
-  is symmetric), so it is evaluated once at the entry point.  Where the gate can be `False` *inside* an
-  operation that went on (only `union` with a parent-less receiver, F-C19j) it is passed down explicitly.
+  is symmetric), so it is evaluated once at the entry point.  `union` still evaluates the gate inside
+  `_union_single_interval` (after its own two-sided parent test, F-C19j repaired, the gate is `True` there); it is
+  passed down explicitly to keep the mirror literal.
 -/
 import BioCantor.Model.Location
 import BioCantor.Model.ParentKey
@@ -172,12 +173,13 @@ def unionCS (la : Loc) (b : Blk) (gate : Bool) : R Location := do
     let c ← mkCompoundLoc (non ++ [b]) la.strand
     optimizeLoc true c
 
-/-- `X.union(other: SingleInterval)` for X single / compound / empty: strand test, ONE-SIDED parent test
-    (`if self.parent:`), then the class-specific merge.  The result keeps the receiver's parent. -/
+/-- `X.union(other: SingleInterval)` for X single / compound / empty: strand test, two-sided parent test
+    (`if self.parent or other.parent:`, F-C19j repaired), then the class-specific merge.  The result keeps the
+    receiver's parent. -/
 def unionWithSingle (l : PLoc) (b : Blk) (sb : Strand) (pb : PKey) : R PLoc := do
   let sl ← locStrand l.1
   if sl ≠ sb then throw .ValueError
-  if !l.2.isEmpty then requireParentsEq l.2 pb
+  if !l.2.isEmpty || !pb.isEmpty then requireParentsEq l.2 pb
   let gate := parentGate l.2 pb
   match l.1 with
   | .single a _ => do let r ← unionSS a b sl gate; pure (withPar r l.2)
@@ -193,10 +195,6 @@ def singleLt (x y : Blk × PKey) : Bool :=
   else if x.1.1 != y.1.1 then decide (x.1.1 < y.1.1)
   else if x.1.2 != y.1.2 then decide (x.1.2 < y.1.2)
   else false
-
-/-- `sorted()` must compare a block of a parent-less receiver (key `""`) with a block whose parent has no id
-    (key `None`): `"" < None` raises TypeError.  (Only reachable in the one-sided corner F-C19j.) -/
-def idsIncomparable (pa pb : PKey) : Bool := pa.isEmpty && !pb.isEmpty && (parentId pb).isNone
 
 /-- `sorted(blocks)` (stable, uses `<` only) -/
 def sortSingles (l : List (Blk × PKey)) : List (Blk × PKey) := l.mergeSort (fun x y => !singleLt y x)
@@ -215,13 +213,13 @@ def unionP (a b : PLoc) : R PLoc :=
   | _, .single y sb => unionWithSingle a y sb b.2
   | .single x sa, .compound lb => do
       if sa ≠ lb.strand then throw .ValueError
-      if !a.2.isEmpty then requireParentsEq a.2 b.2
+      if !a.2.isEmpty || !b.2.isEmpty then requireParentsEq a.2 b.2
       unionWithSingle b x sa a.2          -- `other.union(self)`
   | .compound la, .compound lb => do
       if la.strand ≠ lb.strand then throw .ValueError
-      if !a.2.isEmpty then requireParentsEq a.2 b.2
-      -- `_union_compound_interval`
-      if idsIncomparable a.2 b.2 then throw .TypeError
+      if !a.2.isEmpty || !b.2.isEmpty then requireParentsEq a.2 b.2
+      -- `_union_compound_interval`; after the two-sided parent test every block carries a compatible parent, so
+      -- `SingleInterval.compare` never meets the keys `""` (no parent) and `None` (parent without id) together
       mergeBlocks (sortSingles (la.blocks.map (fun x => (x, a.2)) ++ lb.blocks.map (fun x => (x, b.2)))) la.strand
   | _, .empty => throw .EmptyLocation     -- `self.strand != other.strand` evaluates `EmptyLocation.strand`
 
@@ -242,7 +240,7 @@ def unionPreserveP (a b : PLoc) : R PLoc :=
     let sa ← locStrand a.1
     let sb ← locStrand b.1
     if sa ≠ sb then throw .InvalidStrand
-    if !a.2.isEmpty then requireParentsEq a.2 b.2
+    if !a.2.isEmpty || !b.2.isEmpty then requireParentsEq a.2 b.2
     let c ← mkCompoundP (locBlocks a.1 ++ locBlocks b.1) sa a.2
     optimizeBlocksP c
 
@@ -496,7 +494,7 @@ def shiftP (a : PLoc) (shift : Int) : R PLoc :=
   | .empty => throw .EmptyLocation
   | .single b st => mkSingleP (b.1 + shift) (b.2 + shift) st a.2
   | .compound la => do
-    -- the constructor accepts negative starts; the forced `_single_intervals` refuse them
+    -- the constructor refuses negative block starts (F-C19g repaired)
     if la.blocks.any (fun b => (b.1 : Int) + shift < 0) then throw .InvalidPosition
     mkCompoundP (la.blocks.map (fun b => (((b.1 : Int) + shift).toNat, ((b.2 : Int) + shift).toNat))) la.strand a.2
 
